@@ -205,11 +205,11 @@ impl GameData {
 
         for repository in &self.repositories {
             if repository.name == repository_token {
-                return Some((repository, string_to_category(tokens.0)?));
+                return Some((repository, string_to_category(&tokens.0.to_lowercase())?));
             }
         }
 
-        Some((&self.repositories[0], string_to_category(tokens.0)?))
+        Some((&self.repositories[0], string_to_category(&tokens.0.to_lowercase())?))
     }
 
     fn get_index_filenames(&self, path: &str) -> Option<Vec<(String, u8)>> {
